@@ -1,15 +1,15 @@
 #!/bin/sh
 # evaluation helper: run ONE check against a seeded change (or the unchanged library: seed name "clean") with private copies of the
 # library, the Lean project and the output directory -- nothing under /verif or /repo is written
-# usage: tools/tryseed2.sh <seed name|clean> <check id> [VERIF_SEED ...]
+# usage: [TIER=thorough] tools/tryseed2.sh <seed name|clean> <check id> [VERIF_SEED ...]
 NAME="$1"; CHK="$2"; shift 2
-D=/root/scratch/tryseed2_${NAME}_$CHK
+D=/root/scratch/tryseed2_${NAME}_${CHK}_${TIER:-quick}
 rm -rf "$D"; mkdir -p "$D"
 rsync -a --exclude .git --exclude docs --exclude docs_source /repo/ "$D/repo/"
 if [ "$NAME" != clean ]; then (cd "$D/repo" && patch -p1 -s < /verif/seeded/$NAME/patch.diff) || exit 2; fi
 rsync -a /verif/lean/ "$D/lean/"
 cd /verif
 for sd in ${@:-0}; do
-  VERIF_SEED=$sd NPS_REPO="$D/repo" VERIF_OUT_DIR="$D/out" VERIF_LEAN_DIR="$D/lean" ./check $CHK quick 2>&1 | grep -v "^KNOWN\|Warning\|warn" | tail -1 | cut -c1-170
+  VERIF_SEED=$sd NPS_REPO="$D/repo" VERIF_OUT_DIR="$D/out" VERIF_LEAN_DIR="$D/lean" ./check $CHK ${TIER:-quick} 2>&1 | grep -v "^KNOWN\|Warning\|warn" | tail -1 | cut -c1-170
 done
 rm -rf "$D"
